@@ -198,8 +198,10 @@ AggVal(a, rows, env) ==
   IN CASE a.f = "count*" -> Len(rows)
        [] a.f = "count" -> n
        [] a.f = "sum" -> IF n = 0 THEN NULL ELSE SumS(vals)
-       [] a.f = "min" -> IF n = 0 THEN NULL ELSE MinS(vals)
-       [] a.f = "max" -> IF n = 0 THEN NULL ELSE MaxS(vals)
+       \* deviation "MinMaxEmptySentinel": MIN/MAX over no non-NULL input returns the accumulator's
+       \* initial sentinel (reported by the harness as the unrepresentable marker) instead of NULL
+       [] a.f = "min" -> IF n = 0 THEN (IF "MinMaxEmptySentinel" \in env.dev THEN -999000000 ELSE NULL) ELSE MinS(vals)
+       [] a.f = "max" -> IF n = 0 THEN (IF "MinMaxEmptySentinel" \in env.dev THEN -999000000 ELSE NULL) ELSE MaxS(vals)
        [] a.f = "avg" -> IF n = 0 THEN NULL ELSE (SumS(vals) * AVGSCALE) \div n
 
 \* the aggregation is only judged when every AVG group has a count dividing AVGSCALE
